@@ -58,6 +58,7 @@ fn main() {
     let code = match prop.as_str() {
         "C01" => props::c01::run_check(&ctx),
         "C02" => props::c02::run_check(&ctx),
+        "C03" => props::c03::run_check(&ctx),
         "C04" => props::c04::run(&ctx),
         "C05" => props::c05::run(&ctx),
         "C09" | "C15" => props::c09::run(&ctx),
